@@ -28,6 +28,7 @@ import (
 	"mime"
 	"mime/multipart"
 	"net/http"
+	"net/http/httputil"
 	"net/url"
 	"strings"
 	"sync"
@@ -772,6 +773,11 @@ func postData(req *http.Request, logBody bool) (*PostData, error) {
 	br, err := mv.BodyReader()
 	if err != nil {
 		return nil, err
+	}
+	// The snapshot keeps a chunked body in its chunked framing. Post data is
+	// the body as the origin receives it: unchunked, Content-Encoding intact.
+	if tec := len(req.TransferEncoding); tec > 0 && req.TransferEncoding[tec-1] == "chunked" {
+		br = ioutil.NopCloser(httputil.NewChunkedReader(br))
 	}
 
 	switch mt {
